@@ -112,7 +112,7 @@ PROPS = {
                      "by operations on other handles, and after destroying every handle both tables are back to their initial "
                      "sizes; ASan reports use-after-free / double free; non-trivial = at least one apply in the history",
                 assumptions=PROOF_ASSUME),
-    "C13": dict(level="proof", kinds=[("parse", 24), ("nfah_ops", 2), ("bddh", 1), ("glue", 1), ("nfas", 1), ("bddload", 1)], n=dict(quick=14400, thorough=200000, search=13000),
+    "C13": dict(level="proof", kinds=[("parse", 24), ("parse2", 4), ("nfah_ops", 2), ("bddh", 1), ("glue", 1), ("nfas", 1), ("bddload", 1)], n=dict(quick=14400, thorough=200000, search=13000),
                 rule="texts: valid files with adversarial names, ranked tree automata, word automata, byte- and token-level "
                      "mutations of them, keyword soups, random bytes (incl. NUL, 0x80, 0xff, VT, FF, CR), shipped small files and "
                      "their mutations; TimbukParser::ParseString is compared with the model parser (accept / throw, the whole "
@@ -137,7 +137,7 @@ PROPS = {
                 kinds=[("incl", 6), ("inclall", 1), ("union", 2), ("unionpre", 2), ("uniondisj", 2), ("isect", 2), ("isectbu", 2),
                        ("trim", 3), ("cand", 2), ("reduce", 3), ("simdown", 2), ("simup", 2), ("compl", 3), ("rename", 3),
                        ("nfah_incl", 4), ("nfah_ops", 4), ("nfah_hist", 2), ("tah_store", 3), ("tah_hist", 4), ("lts", 4),
-                       ("mth", 3), ("mthrc", 2), ("bddincl", 5), ("bddinclall", 1), ("bddh", 5), ("bddtd", 1), ("parse", 8),
+                       ("mth", 3), ("mthrc", 2), ("bddincl", 5), ("bddinclall", 1), ("bddh", 5), ("bddtd", 1), ("parse", 8), ("parse2", 1),
                        ("meta", 1), ("apisweep", 3), ("binrel", 2), ("achain", 1), ("ordvec", 1), ("cacheh", 1), ("glue", 1), ("ltsutil", 1),
                        ("bddsim", 1), ("mapsx", 1), ("nfah_inclsim", 1)],
                 n=dict(quick=6000, thorough=150000, search=6000),
